@@ -54,12 +54,19 @@ def build_l2(build, go_build, Stage, infra, repo):
     # function-entry-only instrumentation (never a verdict)
     q = subprocess.run(["go", "build", "./..."], cwd=inst, env=env, capture_output=True, text=True)
     if q.returncode != 0:
-        shutil.rmtree(inst)
-        p = subprocess.run([yi, "-src", repo, "-dst", inst, "-entryonly", "-sites", os.path.join(build.dir, "sites.tsv")], capture_output=True, text=True)
-        q2 = subprocess.run(["go", "build", "./..."], cwd=inst, env=env, capture_output=True, text=True)
-        if p.returncode != 0 or q2.returncode != 0:
-            infra("instrumented tree does not build, even with function-entry yields only:\n" + q.stderr + q2.stderr)
-        note = "function-entry only (statement-level instrumentation did not compile: %s)" % q.stderr[:300]
+        # fall back step by step: keep statement-level yields but leave blocking calls alone (a type with
+        # Lock but no TryLock), then function-entry yields only
+        err = q.stderr
+        for flags, what in ((["-nolocks"], "statement-level, blocking calls not rewritten"), (["-entryonly"], "function-entry only"), (["-entryonly", "-nolocks"], "function-entry only, blocking calls not rewritten")):
+            shutil.rmtree(inst)
+            p = subprocess.run([yi, "-src", repo, "-dst", inst, "-sites", os.path.join(build.dir, "sites.tsv")] + flags, capture_output=True, text=True)
+            q2 = subprocess.run(["go", "build", "./..."], cwd=inst, env=env, capture_output=True, text=True)
+            if p.returncode == 0 and q2.returncode == 0:
+                note = "%s (full instrumentation did not compile: %s)" % (what, err[:300])
+                break
+            err += q2.stderr
+        else:
+            infra("instrumented tree does not build, even with function-entry yields only:\n" + err)
     modfile = os.path.join(build.dir, "go.l2.mod")
     with open(os.path.join(SIM, "go.mod")) as f:
         txt = f.read().replace("=> /repo", "=> " + inst)
